@@ -269,6 +269,9 @@ JUNK = ['', ' ', ':', ';', '1::2', '1:2;3', ':1', '1:', 'abc', '1e3', 'nan', 'in
         '1:2\n', '\n', '1\x00', '1.2.3', '1,5', '1:2,5', '9' * 400, '9' * 5000, '1:' + '9' * 5000, '1.5e400', '1e-400', 'None',
         '1' + '0' * 400 + ':0.5', '9' * 310 + ';1.5', '2.5:' + '9' * 400, '1' + '0' * 309 + ':0:0.1', '9' * 4000 + ':0.5', 'True', '1:1:1e2', '0b1', '1j', '\t7', '7\t:8', '1:.', '.', '..', '1:.:2', '²', '①', '1 2', '5;', ';5']
 # more fields than the interpreter's recursion limit / than any clock has
+# characters that mean something to %-formatting, str.format, templates and regexes: an error message built from the text
+JUNK += ['100%', '5%s', '%d', '1:3%d', '2;5%5.2f', '12:30 %(secs)s', '%', '%%', '1:%', '{0}', '{}', '1:{x}', '2;{', '}', '\\', '1\\:2', '$1', '${x}', '1:$',
+         '(1', '1)', '[1', '*', '1:+', '?', '^1', '1$', '1|2', '\x00', '1\x00:2']
 JUNK += [':'.join(['0'] * 1500), ';'.join(['1'] * 3000), '0:' * 20000 + '1', ':' * 5000, '1;2;3;4;5', '0.5:' * 1200 + '1']
 
 
